@@ -16,6 +16,7 @@ import (
 	"go.uber.org/zap/zapcore"
 
 	"verifsim/core"
+	_ "verifsim/h/pipe"
 	_ "verifsim/h/walq"
 )
 
